@@ -1,0 +1,94 @@
+//! verif-hooks (property C04): hand a BGP UPDATE to the BMP state machine
+//! inside a Route Monitoring message and return what would leave the unit.
+//!
+//! Add-only, guarded by the `verif-hooks` feature. Builds a fresh state
+//! machine exactly like the unit tests do (`state_machine::tests::
+//! mk_test_processor`), feeds it an Initiation and a Peer Up message, then
+//! ONE Route Monitoring message whose BGP UPDATE is `bgp_update` verbatim.
+use std::sync::Arc;
+use std::time::Instant;
+
+use bytes::Bytes;
+use rotonda_store::prelude::multi::RouteStatus;
+use routecore::bmp::message::Message as BmpMsg;
+
+use super::metrics::BmpTcpInMetrics;
+use super::state_machine::{BmpState, BmpStateMachineMetrics, MessageType};
+use super::status_reporter::BmpTcpInStatusReporter;
+use crate::payload::{RotondaRoute, Update};
+use crate::roto_runtime::types::RouteContext;
+
+/// Ok(routes with the status of their context) when the message produced a
+/// routing update (or was consumed without one: End-of-RIB bookkeeping),
+/// Err(reason) when the state machine rejected it.
+pub fn route_monitoring(
+    bgp_update: &[u8],
+) -> Result<Vec<(RotondaRoute, RouteStatus)>, String> {
+    let gate = crate::comms::Gate::default();
+    let metrics = Arc::new(BmpTcpInMetrics::new(&gate));
+    let status_reporter =
+        Arc::new(BmpTcpInStatusReporter::new("verif", metrics));
+    let state = BmpState::new(
+        1,
+        Arc::new("1".to_string()),
+        status_reporter,
+        Arc::new(BmpStateMachineMetrics::new()),
+        Arc::default(),
+    );
+
+    let init = BmpMsg::from_octets(crate::bgp::encode::mk_initiation_msg(
+        "verif-router",
+        "verif",
+    ))
+    .map_err(|e| format!("initiation: {e}"))?;
+    let state = state.process_msg(Instant::now(), init, None).next_state;
+
+    let pph = crate::bgp::encode::mk_per_peer_header("127.0.0.1", 12345);
+    let peer_up = BmpMsg::from_octets(
+        crate::bgp::encode::mk_peer_up_notification_msg(
+            &pph,
+            "10.0.0.1".parse().unwrap(),
+            11019,
+            4567,
+            111,
+            222,
+            0,
+            0,
+            vec![],
+            false,
+        ),
+    )
+    .map_err(|e| format!("peer up: {e}"))?;
+    let state = state.process_msg(Instant::now(), peer_up, None).next_state;
+
+    let rm = BmpMsg::from_octets(
+        crate::bgp::encode::mk_raw_route_monitoring_msg(
+            &pph,
+            Bytes::copy_from_slice(bgp_update),
+        ),
+    )
+    .map_err(|e| format!("route monitoring: {e}"))?;
+    let res = state.process_msg(Instant::now(), rm, None);
+
+    match res.message_type {
+        MessageType::RoutingUpdate {
+            update: Update::Bulk(payloads),
+        } => Ok(payloads
+            .into_iter()
+            .map(|p| {
+                let status = match &p.context {
+                    RouteContext::Fresh(ctx) => ctx.status,
+                    RouteContext::Mrt(ctx) => ctx.status,
+                    RouteContext::Reprocess => RouteStatus::InActive,
+                };
+                (p.rx_value, status)
+            })
+            .collect()),
+        MessageType::RoutingUpdate { .. } => {
+            Err("routing update that is not Update::Bulk".into())
+        }
+        MessageType::InvalidMessage { err, .. } => Err(err),
+        MessageType::Other | MessageType::StateTransition => Ok(vec![]),
+        MessageType::Aborted => Err("aborted".into()),
+    }
+}
